@@ -23,6 +23,8 @@ def cases():
         else:
             yield name, p, "violation", [exp[0]], " ".join(exp[1:])
     for d in sorted(glob.glob(ROOT + "/seeded/*/")):
+        if not os.path.exists(d + "meta.json"):
+            continue  # a seed still being confirmed
         meta = json.load(open(d + "meta.json"))
         props = meta["property"] if isinstance(meta["property"], list) else [meta["property"]]
         yield "seeded-" + os.path.basename(d.rstrip("/")), d + "patch.diff", meta.get("expect", "violation"), props, meta.get("rule", "")
